@@ -113,6 +113,7 @@ def observe(module, struct_name, params, data):
 def compare(model, actual):
     """Returns list of (key, expected, got) ignoring UNSPEC-tainted keys."""
     diffs = []
+    partial = "#partial" in actual
     tainted = [k[7:] for k in model if k.startswith("~taint~")]
     tainted += [k[:-1] for k in model if k.endswith(".*")]
     for k, mv in model.items():
@@ -125,9 +126,13 @@ def compare(model, actual):
             if av is not None and av != mv[4:]:
                 diffs.append((k, mv, av))
             continue
+        if av is None and partial:
+            continue  # the driver aborted before printing this line
         if av != mv:
             diffs.append((k, mv, av))
     for k, av in actual.items():
+        if k.startswith("#"):
+            continue
         if k not in model and not any(k.startswith(t) for t in tainted):
             # keys the model did not produce: only acceptable under an UNSPEC parent
             base = k.rsplit(".", 1)[0]
